@@ -89,6 +89,7 @@ const (
 	BranchS   = "UbS"
 	BranchM   = "UbM"
 	LowStruct = "lowSt" // lower-case schema name
+	StructM   = "StM"   // struct made of records with framing only
 )
 
 func NewUniverse() *Universe {
@@ -99,6 +100,7 @@ func NewUniverse() *Universe {
 	u.Types[StructA] = TypeInfo{Name: StructA, Class: ClsStruct}
 	u.Types[StructE] = TypeInfo{Name: StructE, Class: ClsStruct, Empty: true}
 	u.Types[StructR] = TypeInfo{Name: StructR, Class: ClsStruct}
+	u.Types[StructM] = TypeInfo{Name: StructM, Class: ClsStruct}
 	u.Types[MessageA] = TypeInfo{Name: MessageA, Class: ClsMessage}
 	u.Types[MessageE] = TypeInfo{Name: MessageE, Class: ClsMessage, Empty: true}
 	u.Types[UnionA] = TypeInfo{Name: UnionA, Class: ClsUnion}
@@ -128,6 +130,7 @@ func (u *Universe) BaseDefs(b *geneval.Builder) geneval.FileSpec {
 	fs.Structs = append(fs.Structs,
 		b.Struct(StructA, false, 0, geneval.FieldSpec{Name: "x", Shape: geneval.Simple("int32")}, geneval.FieldSpec{Name: "s", Shape: geneval.Simple("string")}),
 		b.Struct(StructE, false, 0),
+		b.Struct(StructM, false, 0, geneval.FieldSpec{Name: "m", Shape: geneval.Simple(MessageA)}, geneval.FieldSpec{Name: "u", Shape: geneval.Simple(UnionA)}),
 		b.Struct(StructR, true, 0x12345678, geneval.FieldSpec{Name: "p", Shape: geneval.Simple("uint16")}, geneval.FieldSpec{Name: "q", Shape: geneval.Arr(geneval.Simple("string"))}),
 	)
 	fs.Messages = append(fs.Messages,
@@ -150,7 +153,7 @@ func (u *Universe) BaseDefs(b *geneval.Builder) geneval.FileSpec {
 // 2 = full leaves at every depth (thorough).
 func (u *Universe) Shapes(maxDepth int, level int) []geneval.Shape {
 	leaves := u.Leaves()
-	rep := []string{"bool", "byte", "uint8", "int16", "uint32", "int64", "float64", "guid", "date", "string", EnumName("uint8"), EnumName("int64"), StructA, StructE, StructR, MessageA, UnionA}
+	rep := []string{"bool", "byte", "uint8", "int16", "uint32", "int64", "float64", "guid", "date", "string", EnumName("uint8"), EnumName("int64"), StructA, StructE, StructR, StructM, MessageA, UnionA}
 	keysAll := PrimitiveKeys
 	keysRep := []string{"string", "int32", "guid", "date", "byte"}
 	var out []geneval.Shape
